@@ -99,7 +99,8 @@ def one(case, acc):
     try:
         repl = replwrap.bash() if shell == 'bash' else replwrap.python(sys.executable)
     except Exception as e:
-        acc.inconc('could not start %s: %r' % (shell, e))
+        # bash and python exist (selftest): an exception while the wrapper sets itself up comes from pexpect
+        acc.violation('repl-cannot-start:' + type(e).__name__, 'could not start the %s wrapper: %r' % (shell, str(e)[:200]), case)
         return
     loop = None
     try:
